@@ -91,6 +91,9 @@ func (p *Program) verifyFunc(key string, safetyOnly bool) *FuncResult {
 		for n := range e.externals {
 			res.Externals = append(res.Externals, n)
 		}
+		for n := range e.trusted {
+			res.Externals = append(res.Externals, "trusted contract of "+n+" (body not verified)")
+		}
 		sort.Strings(res.Externals)
 	}()
 	if fn.Blocks == nil {
